@@ -10,6 +10,8 @@ import (
 
 func init() { commands["c10"] = runC10 }
 
+var raceSeq int
+
 // start -> P -> H -> N -> end ; boundary events B<i> on H -> X<i> -> end.
 // H is a task, or a sub-process whose content is the task HT.
 type c10Shape struct {
@@ -188,8 +190,17 @@ func c10Run(sh c10Shape, ops []string) (o c10Obs) {
 			o.raced = true
 			var wg sync.WaitGroup
 			wg.Add(2)
+			// the answer follows the delivery by 0..250 microseconds (varied from run to run): the event is then
+			// delivered while the host still waits, and its listener's decision meets the answer at the arbiter
+			raceSeq++
+			lag := time.Duration(raceSeq%6) * 50 * time.Microsecond
 			go func() { defer wg.Done(); in.Signal(fmt.Sprintf("s%d", k)) }()
-			go func() { defer wg.Done(); in.Answer(host, time.Second) }()
+			go func() {
+				defer wg.Done()
+				for t0 := time.Now(); time.Since(t0) < lag; {
+				}
+				in.Answer(host, time.Second)
+			}()
 			wg.Wait()
 			time.Sleep(30 * time.Millisecond)
 			phase = "over"
@@ -351,9 +362,22 @@ func runC10(env *Env) {
 			}
 			hists = append(hists, ops)
 		}
+		// the answer racing an interrupting event, again and again: the outcome must be one of the two orders, never both flows
+		if len(sh.kinds) == 1 && sh.kinds[0] && !sh.two {
+			races := 30
+			if env.Thorough() {
+				races = 200
+			}
+			for i := 0; i < races; i++ {
+				hists = append(hists, []string{"p", "r0"})
+			}
+		}
 		seen := map[string]bool{}
-		for _, ops := range hists {
+		for hi, ops := range hists {
 			key := strings.Join(ops, ",")
+			if key == "p,r0" {
+				key = fmt.Sprintf("p,r0#%d", hi) // repeated on purpose
+			}
 			if seen[key] || rep.Saturated() {
 				continue
 			}
